@@ -162,6 +162,10 @@ def run_plan(draw, n):
     """Explicit run plan over n entries: mixture of RLE and bit-packed runs around group boundaries."""
     if n == 0 or draw(st.integers(0, 2)) == 0:
         return None
+    if draw(st.integers(0, 5)) == 0:
+        # one RLE run per entry (what a naive encoder emits when neighbours differ): the stream is longer in bytes
+        # than it has entries
+        return [["rle", 1]] * min(n, 64)
     runs = []
     left = n
     while left > 0 and len(runs) < 8:
